@@ -6,16 +6,18 @@ CHECK = dict(
     extras=[branch_length_probe],
     budget=dict(quick=25, thorough=600), max_runs=dict(quick=2_000_000, thorough=50_000_000),
     rule=('each evaluation = one seeded history of initialise / branch_and_root (extension) / truncate '
-          '(optionally followed by replacing the truncated tail, as a reorganisation does) issued sequentially '
-          'against the real MerkleCache over a list of 1..600 leaves whose asynchronous source is served with '
+          '(optionally followed by replacing the truncated tail, as a reorganisation does) issued sequentially - '
+          'or, in 40 % of the runs, with bursts of extension requests in flight while the truncate (and the '
+          'replacement of the tail) happens, each in-flight answer being allowed to match any version of the list '
+          'that existed during the request or to be refused - against the real MerkleCache over a list of 1..600 leaves whose asynchronous source is served with '
           'simulated latency; after every operation, and for a final sweep of (length, index) pairs (all pairs '
-          'for small lists), the answer must equal the from-scratch Merkle.branch_and_root, which is itself '
+          'for small lists; in ascending, shuffled or full-length-first order), the answer must equal the from-scratch Merkle.branch_and_root, which is itself '
           'compared with an independent definition (root, fold-back, branch length, TSC "*" marking). Plus a '
           'declared non-simulation probe: branch_length on all 187 power-of-two boundary values up to 2**62. '
           'non-trivial = >= 3 cache queries checked; distinct = distinct (size, operation kinds, seed class)'),
     assumptions=['the stateless clauses (fold-back, root, branch length, TSC marking) are pure functions: '
                  'covered as the oracle\'s by-product and by the declared probe, not by simulation '
-                 '(DESIGN.md section 9)', 'concurrent use of the cache belongs to C11'],
+                 '(DESIGN.md section 9)', 'the system-level use of the cache (header proofs during reorganisations) belongs to C11'],
     components={'real': ['electrumx.lib.merkle.Merkle', 'electrumx.lib.merkle.MerkleCache', 'asyncio'],
                 'stub': ['hash source (list with simulated latency)']},
 )
